@@ -4,9 +4,9 @@ from .heapmodel import register_record, register_object
 register_record("ArtifactKitPayload", {"offset": "int", "size": "int", "xorkey": "bytes", "hints": "bytes",
                                        "payload": "bytes"}, "dissect.cobaltstrike.artifact")
 
-register_record("HttpRequest", {"method": "bytes", "uri": "bytes", "params": "any", "headers": "any", "body": "bytes"},
+register_record("HttpRequest", {"method": "bytes", "uri": "bytes", "params": "dict", "headers": "dict", "body": "bytes"},
                 "dissect.cobaltstrike.c2")
-register_record("HttpResponse", {"status": "int", "headers": "any", "reason": "bytes", "body": "bytes",
+register_record("HttpResponse", {"status": "int", "headers": "dict", "reason": "bytes", "body": "bytes",
                                  "request": "opt[record[HttpRequest]]"}, "dissect.cobaltstrike.c2")
 
 register_record("EncryptedPacket", {"ciphertext": "bytes", "signature": "bytes"}, "dissect.cobaltstrike.c2")
@@ -26,3 +26,6 @@ register_record("GuardrailMetadata", {"beacon_config_offset": "int", "guard_conf
                                       "settings": "any"}, "dissect.cobaltstrike.guardrails")
 
 register_object("BeaconVersion", {"version": "str", "tuple": "any", "date": "any"}, "dissect.cobaltstrike.version")
+
+register_object("HttpDataTransform", {"tsteps": "mlist[tuple[str,any]]", "rsteps": "mlist[tuple[str,any]]"},
+                "dissect.cobaltstrike.c2")
